@@ -6,7 +6,7 @@ func init() {
 	register(&Property{ID: "C13",
 		Jobs: func(tier string) []*Job {
 			return []*Job{f4Job("rename", "VerifRename", 0, []string{"ran"}, []string{"C13-rename"},
-				"7 skeletons (local variable, method, class, instance variable, setter method, heredoc terminator, predicate-suffixed method) x 5 fresh names of the same lexical category each (incl. one-character and digit/underscore-bearing names); leaf kind a solver variable; reference-name program vs renamed program in one path")}
+				"7 skeletons (local variable, method, class, instance variable, setter method, heredoc terminator, predicate-suffixed method) x 5-9 fresh names of the same lexical category each (incl. one-character, digit/underscore-bearing, camelCase and acronym-style names); leaf kind a solver variable; reference-name program vs renamed program in one path")}
 		},
 		Custom:    replayRename,
 		Filter:    func(v *Violation) bool { return strings.HasPrefix(v.ID, "C13") },
